@@ -6,8 +6,8 @@ Streams
            vs Model/C15.run_conn; every history is also run unchunked and (short ones) byte by byte.
   kernels  _extract_message_size / _encode_length (Gen/tcp_framing, translated from source), _serialize,
            _decode_message, option value canonicalisation (format table) vs the model functions.
-  pending  (oracle only) real TokenManager + TCPClient pool with outstanding requests; peer Release / Abort /
-           connection loss must fail every outstanding request with a NetworkError.
+  pending  real TokenManager + TCPClient pool + two TcpConnections with outstanding requests (some observing, some answered);
+           peer Release / Abort / loss / own Abort + loss; vs Model/C15Sys.sys_run (pool, outgoing_requests table, Pipe events).
 The oracle is an independent RFC 8323 receiver/encoder written here (ref_*), not the Coq model.
 """
 import os, sys, logging, itertools
@@ -192,6 +192,15 @@ class RefReceiver:
         if self.done: return
         self.why[len(self.exp)] = "serialize"
         self.exp.append(["w", summ(ref_enc_frame(code, token, ref_option_order([(n, ref_canon(n, v)) for n, v in opts]), payload))])
+    def send_via(self, code, token, opts, payload):
+        """the token-interface entry: RFC 7967 No-Response (option 258) is a local instruction — a response whose class
+        bit (2.xx=2, 4.xx=8, 5.xx=16) is set in it is suppressed, and the option never goes on the wire with a response/request"""
+        if self.done: return
+        nr = [int.from_bytes(v, "big") for n, v in opts if n == 258]
+        if 64 <= code < 192 and nr and nr[0] & (1 << ((code >> 5) - 1)):
+            self.why.setdefault(("suppressed", len(self.exp)), True); return
+        self.why[len(self.exp)] = "serialize-via"
+        self.exp.append(["w", summ(ref_enc_frame(code, token, ref_option_order([(n, ref_canon(n, v)) for n, v in opts if n != 258]), payload))])
     def lost(self):
         if self.done: return
         self.exp.append(["err", "ConnectionLost"])
@@ -260,6 +269,12 @@ def run_real(maxsize, events):
             if not tr.closed: ok = guarded(conn.data_received, ev[1])
         elif ev[0] == "send":
             if not tr.closed: ok = guarded(lambda: conn._send_message(build_message(*ev[1:])))
+        elif ev[0] == "sendvia":
+            if not tr.closed:
+                def via():
+                    m = build_message(*ev[1:]); m.remote = conn
+                    pool.send_message(m, lambda: None)
+                ok = guarded(via)
         else: ok = guarded(conn.connection_lost, None)
     rs = conn._remote_settings
     final = {"spool": summ(conn._spool), "settings": None if rs is None else [rs.get("max-message-size"), bool(rs.get("block-wise-transfer", False))],
@@ -268,7 +283,7 @@ def run_real(maxsize, events):
 
 def ev_to_real(ev):
     if ev[0] == "data": return ("data", segs_bytes(ev[1]))
-    if ev[0] == "send": return ("send", ev[1]["code"], bytes(ev[1]["token"]), [(n, bytes(v)) for n, v in ev[1]["opts"]], segs_bytes(ev[1]["payload"]))
+    if ev[0] in ("send", "sendvia"): return (ev[0], ev[1]["code"], bytes(ev[1]["token"]), [(n, bytes(v)) for n, v in ev[1]["opts"]], segs_bytes(ev[1]["payload"]))
     return ("lost",)
 def variants(inp):
     """which runs a conn case consists of: the given history, the unchunked one, the byte-by-byte one"""
@@ -469,6 +484,14 @@ def gen_conn_case(rng, tier):
             ev = ["send", {"code": m["code"], "token": list(m["token"]), "opts": insertion_order(rng, [[n, list(sendable(n, v))] for n, v in m["opts"]]),
                            "payload": mk_segs([m["payload"]])}]
             events.insert(rng.randint(0, len(events)), ev)
+    if rng.random() < 0.2 and events:
+        for _ in range(rng.randint(1, 2)):
+            m = gen_message(rng, rng.choice(["response", "response", "request"]))
+            opts = [[n, list(sendable(n, v))] for n, v in m["opts"] if n != 258]
+            if rng.random() < 0.8:
+                for _k in range(rng.choice([1, 1, 2])): opts.append([258, list(rng.choice([b"", b"\x02", b"\x08", b"\x10", b"\x1a", b"\x18", b"\x00\x02", b"\x7f", b"\x01\x02"]))])
+            ev = ["sendvia", {"code": m["code"], "token": list(m["token"]), "opts": insertion_order(rng, sorted(opts, key=lambda o: o[0])), "payload": mk_segs([m["payload"]])}]
+            events.insert(rng.randint(0, len(events)), ev)
     if rng.random() < 0.15: events.insert(rng.randint(max(0, len(events) - 1), len(events)), ["lost"])
     return {"max": maxsize, "events": events}
 
@@ -541,7 +564,7 @@ class C15(fw.Property):
     id = "C15"
     coq_props = "Props/C15.v"
     gen_jobs = ["tcp_framing", "options_ext"]
-    model_imports = ["Verif.Lib.Py", "Verif.Gen.options_ext", "Verif.Gen.tcp_framing", "Verif.Model.C15"]
+    model_imports = ["Verif.Lib.Py", "Verif.Gen.options_ext", "Verif.Gen.tcp_framing", "Verif.Model.C15", "Verif.Model.C15Sys"]
     quick_budget = 330
     thorough_budget = 9000
     design_ref = "DESIGN.md section 19"
@@ -561,19 +584,25 @@ class C15(fw.Property):
             "occasionally 65804/65805/65806, local maximum 20/40/300/1152/1MiB with frames at max and max+1) with a malformed/oversized item at a random position in ~1/3 "
             "of the cases, byte mutations of such streams, and random byte strings; chunked whole / per frame / byte-wise / around frame boundaries / random / fixed stride; "
             "outgoing messages and connection loss interleaved; each data-only history is additionally run unchunked and (<=160 bytes) byte by byte. thorough adds every chunking (all subsets of the first 10 cut positions) "
-            "of nine short streams. kernels: function-level cases. Non-trivial conn case = at least one message dispatched or signalling reaction observed, "
+            "of nine short streams. conn also drives pool.send_message (No-Response option 258 masking / removal). kernels: function-level cases. "
+            "pending (40 per quick run): requests on two pooled client connections, some observing, some answered, then Release / Abort / diagnostic Abort / chunked Release / "
+            "loss / response+Release in one segment / Release+response / own Abort (TKL, oversize) with and without the following connection_lost / unmatched response; "
+            "compared with Model/C15Sys (Pipe events in order, pool, outgoing_requests, close flags); non-trivial = some request failed. Non-trivial conn case = at least one message dispatched or signalling reaction observed, "
             "distinct by the normalised trace; kernels distinct by input.")
     trusted_base = ["translator translate/py2v.py + Lib/Py.v prelude (validated by the kernels stream on every run)",
-                    "hand-written Model/C15.v (validated by the conn stream: full traces, spool, settings, close state)",
+                    "hand-written Model/C15.v (validated by the conn stream: full traces, spool, settings, close state) and Model/C15Sys.v (pool + token manager table, validated by the pending stream)",
                     "fake stream transport: write/close recorded, no data delivered after close(); token manager replaced by a recorder (conn) / real TokenManager (pending)",
                     "CPython's UTF-8 decoder modelled as Unicode table 3-7 (validated by option_value cases)"]
-    assumptions = ["a payload marker followed by an empty payload is accepted (as Options.decode does; C01's domain)"]
+    assumptions = ["after the endpoint's own Abort + close() the requests outstanding on that connection fail when the transport calls connection_lost (asyncio does, after close()); the fake transport delivers it as a separate 'lost' event",
+                   "TokenManager.incoming_requests stoppers (server side of dispatch_error, tokenmanager.py:106-108) and _dispatch_error with _tokenmanager None (shutdown) are not modelled",
+                   "_abort_with while _transport is None (tcp.py:128-133, only reachable before connection_made / from shutdown paths) is not modelled; data_received cannot run in that state",
+                   "a payload marker followed by an empty payload is accepted (as Options.decode does; C01's domain)"]
 
     def gen_cases(self, tier, rng, n):
         n_kernel = n // 4
         for k in range(n - n_kernel): yield "conn", gen_conn_case(rng, tier)
         for k in range(n_kernel): yield "kernels", gen_kernel_case(rng, k)
-        for k in range(max(6, n // 60)): yield "pending", gen_pending_case(rng)
+        for k in range(40 if tier == "quick" else max(40, n // 12)): yield "pending", gen_pending_case(rng)
         if tier == "thorough":
             yield from exhaustive_cases()
 
@@ -642,12 +671,13 @@ class C15(fw.Property):
         for e in evs:
             if e[0] == "data": items.append("EData %s" % gsegs(e[1]))
             elif e[0] == "send": items.append("ESend %s" % self.gmsg(e[1]["code"], e[1]["token"], e[1]["opts"], e[1]["payload"]))
+            elif e[0] == "sendvia": items.append("ESendVia %s" % self.gmsg(e[1]["code"], e[1]["token"], e[1]["opts"], e[1]["payload"]))
             else: items.append("ELost")
         return glist(items)
     def model(self, stream, inp):
         if stream == "conn":
             return glist(["report (run_conn %d %s)" % (inp["max"], self.gevents(evs)) for _, evs in variants(inp)])
-        if stream == "pending": return None
+        if stream == "pending": return model_pending(inp)
         op = inp["op"]
         if op == "encode_length": return "encode_length %s" % gz(inp["n"])
         if op == "extract": return "extract_message_size %s" % fw.gbytes(inp["data"])
@@ -664,19 +694,33 @@ class C15(fw.Property):
         p = fw.plain(p)
         def dsumm(s): return [s[0], list(s[1]), s[2]]
         def dmsg(kind, a): return [kind, a[0], list(a[1]), [[n, dsumm(s)] for n, s in a[2]], dsumm(a[3])]
+        def dec_out(o):
+            if o == "SCloseT": return ["close"]
+            c, a = o["c"], o["a"]
+            if c == "SWrite": return ["w", dsumm(a[0])]
+            if c == "SRequest": return dmsg("req", a)
+            if c == "SResponse": return dmsg("resp", a)
+            if c == "SError": return ["err", a[0]]
+            return ["escaped", a[0] if isinstance(a[0], str) else "OtherError"]
+        if stream == "pending":
+            outs, pool, outgoing, closed = p
+            trace = []
+            for o in outs:
+                c, a = o["c"], o["a"]
+                if c == "RConn": trace.append(["conn", a[0], dec_out(a[1])])
+                elif c == "RResponse": trace.append(["resp", list(a[0]), a[1], a[2], a[3]])
+                else:
+                    d = a[2]
+                    if d["c"] == "DAsIs": kind = ["asis", "shutdown", d["a"][0]["a"][0]] if isinstance(d["a"][0], dict) else ["asis", "none"]
+                    else: kind = ["wrapped", "none"] if d["a"][0] == "XNone" else ["wrapped", "shutdown", d["a"][0]["a"][0]]
+                    trace.append(["fail", list(a[0]), a[1], kind])
+            return {"trace": trace, "final": {"pool": list(pool), "outgoing": [[list(t), i] for t, i in outgoing], "closed": [[i, b] for i, b in closed]},
+                    "loop_exceptions": 0}
         if stream == "conn":
             out = {}
             for (name, _), rep in zip(variants(inp), p):
                 outs, spool, settings, closed = rep
-                trace = []
-                for o in outs:
-                    if o == "SCloseT": trace.append(["close"]); continue
-                    c, a = o["c"], o["a"]
-                    if c == "SWrite": trace.append(["w", dsumm(a[0])])
-                    elif c == "SRequest": trace.append(dmsg("req", a))
-                    elif c == "SResponse": trace.append(dmsg("resp", a))
-                    elif c == "SError": trace.append(["err", a[0]])
-                    elif c == "SEscaped": trace.append(["escaped", a[0] if isinstance(a[0], str) else "OtherError"])
+                trace = [dec_out(o) for o in outs]
                 if settings == "None": st = None
                 else:
                     mms, bwt = settings["a"][0]
@@ -726,6 +770,7 @@ class C15(fw.Property):
             r = ev_to_real(e)
             if r[0] == "data": ref.data(r[1])
             elif r[0] == "send": ref.send(*r[1:])
+            elif r[0] == "sendvia": ref.send_via(*r[1:])
             else: ref.lost()
         full = self.norm(res["given"]["trace"])
         got = upto_close(full)
@@ -744,7 +789,8 @@ class C15(fw.Property):
             while i < len(got) and i < len(exp) and got[i] == exp[i]: i += 1
             g = got[i] if i < len(got) else ["nothing"]; x = exp[i] if i < len(exp) else ["nothing"]
             why = ref.why.get(i, "")
-            if g[0] in ("req", "resp") and g[1] == 0: sig = "C15:empty-dispatched"
+            if g[0] == "w" and ref.why.get(("suppressed", i)): sig = "C15:masked-response-sent"
+            elif g[0] in ("req", "resp") and g[1] == 0: sig = "C15:empty-dispatched"
             elif x[0] == "abort" and why == "no-csm" and g[0] in ("req", "resp"): sig = "C15:dispatch-before-csm"
             elif x[0] == "abort" and g[0] != "abort": sig = "C15:%s-not-aborted" % why
             elif x[0] == "abort": sig = "C15:abort-differs:%s" % why
@@ -753,6 +799,7 @@ class C15(fw.Property):
             elif g[0] in ("req", "resp"): sig = "C15:spurious-dispatch"
             elif why == "pong": sig = "C15:ping-not-answered-by-pong-with-same-token"
             elif why == "serialize": sig = "C15:serialize-not-rfc8323"
+            elif why == "serialize-via": sig = "C15:send-message-no-response-handling"
             elif why == "peer-close" or x[0] == "err": sig = "C15:peer-release-abort-not-propagated"
             elif g[0] == "abort": sig = "C15:spurious-abort"
             else: sig = "C15:trace-differs:expected-%s-got-%s" % (x[0], g[0])
@@ -830,18 +877,57 @@ class C15(fw.Property):
             if not t: return None
             return fw.jdump([inp["max"], t])
         if stream == "kernels": return fw.jdump(inp)
-        return fw.jdump(inp)
+        return fw.jdump(inp) if any(e[0] == "fail" for e in res.get("trace", [])) else None
 
     def model_for_decode(self): pass
 
 
-# ------------------------------------------------------------------ pending requests (oracle-only stream)
+# ------------------------------------------------------------------ pending requests: pool + token manager around the connections
+def tok_bytes(n): return (n % 2 ** 64).to_bytes(8, "big").lstrip(b"\0")
+
 def gen_pending_case(rng):
-    return {"requests": rng.randint(1, 4), "answered": rng.randint(0, 1), "how": rng.choice(["release", "abort", "lost", "release-chunked", "abort-diagnostic"]),
-            "other_connection_requests": rng.randint(0, 2)}
+    """requests outstanding on two client connections (after the peers' CSM), some answered, then the peer of
+    connection 0 releases / aborts / drops it, or the endpoint aborts it itself (bad frame) and the transport reports the loss"""
+    token0 = rng.choice([0, 0, 254, 255, 65534, 2 ** 32 - 2, rng.randrange(2 ** 40)])
+    evs = []; reqs = []
+    n0, n1 = rng.randint(1, 4), rng.randint(0, 2)
+    order = [0] * n0 + [1] * n1; rng.shuffle(order)
+    for k, cid in enumerate(order):
+        obs = rng.random() < 0.25
+        evs.append(["req", cid, list(tok_bytes(token0 + 1 + k)), obs]); reqs.append((cid, tok_bytes(token0 + 1 + k), obs))
+    mine = [r for r in reqs if r[0] == 0]; other = [r for r in reqs if r[0] == 1]
+    def resp(r, with_observe=None):
+        w = (rng.random() < 0.5) if with_observe is None else with_observe
+        return ref_enc_frame(rng.choice([69, 69, 132, 65]), r[1], [(6, bytes([rng.randrange(1, 200)]))] if w else [], rng.choice([b"", b"ok"]))
+    answered = rng.sample(mine, rng.randint(0, min(2, len(mine))))
+    pre = b"".join(resp(r) for r in answered)
+    if other and rng.random() < 0.4: evs.append(["data", 1, list(resp(other[0]))])
+    how = rng.choice(["release", "abort", "abort-diagnostic", "release-chunked", "lost", "response+release", "release+response",
+                      "own-abort-tkl+lost", "own-abort-oversize+lost", "own-abort-only", "release+lost", "unmatched-response+release", "none"])
+    REL, ABT = bytes.fromhex("00e4"), bytes.fromhex("00e5")
+    def data(b):
+        if b: evs.append(["data", 0, list(b)])
+    if how == "release": data(pre); data(REL)
+    elif how == "abort": data(pre); data(ABT)
+    elif how == "abort-diagnostic": data(pre); data(ref_enc_frame(ABORT, b"", [], b"going away"))
+    elif how == "release-chunked": data(pre + b"\x00"); data(b"\xe4")
+    elif how == "lost": data(pre); evs.append(["lost", 0])
+    elif how == "response+release": data(pre + (resp(mine[-1], False) if mine else b"") + REL)
+    elif how == "release+response": data(pre + REL + (resp(mine[-1], False) if mine else b""))
+    elif how == "own-abort-tkl+lost": data(pre + bytes([0x09, 0x45]) + bytes(9)); evs.append(["lost", 0])
+    elif how == "own-abort-oversize+lost": data(pre + bytes.fromhex("f0ffffffff")); evs.append(["lost", 0])
+    elif how == "own-abort-only": data(pre + bytes([0x0f, 0x01]) + bytes(15))
+    elif how == "release+lost": data(pre + REL); evs.append(["lost", 0])
+    elif how == "unmatched-response+release": data(pre + ref_enc_frame(69, b"\xee\xee\xee", [], b"") + REL)
+    else: data(pre)
+    if rng.random() < 0.3 and ["lost", 0] not in evs:      # (a transport delivers nothing after connection_lost)
+        evs.append(["data", 0, list(resp(mine[0], False))])        # after the end: must change nothing (closed) / or answers
+    if other and rng.random() < 0.3: evs.append(["data", 1, list(resp(other[-1], False))])
+    return {"token0": token0, "events": evs, "how": how}
 
 def run_pending(inp):
-    """real TokenManager + TCPClient pool; requests outstanding on a connection; the peer releases/aborts/drops it"""
+    """real TokenManager + TCPClient pool + two TcpConnections (fake transports); -> trace of everything the transports and the
+    requests' Pipes see, in order, and the final pool / outgoing_requests / close state"""
     sys.path.insert(0, os.path.join(fw.VERIF, "harness"))
     import simloop
     import aiocoap
@@ -852,66 +938,106 @@ def run_pending(inp):
     loop = simloop.VLoop()
     class Ctx: pass
     ctx = Ctx(); ctx.log = _log; ctx.loop = loop; ctx.client_credentials = None
-    outcome = {}
+    trace = []
+    class IdTransport(FakeTransport):
+        def __init__(self, cid): self.cid = cid; self.closed = False
+        def write(self, b): trace.append(["conn", self.cid, ["w", summ(b)]])
+        def close(self): trace.append(["conn", self.cid, ["close"]]); self.closed = True
     with loop.enter():
-        tman = TokenManager(ctx)
+        tman = TokenManager(ctx); tman._token = inp["token0"]
         pool = tcp.TCPClient(); pool._tokenmanager = tman; pool.log = _log; pool.loop = loop
         tman.token_interface = pool
         conns = []
-        for name in ("a", "b"):
-            trace = []
-            c = tcp.TcpConnection(pool, _log, loop, is_server=False); tr = FakeTransport(trace)
-            c.connection_made(tr); pool._pool[(name, 5683)] = c
+        for cid in (0, 1):
+            c = tcp.TcpConnection(pool, _log, loop, is_server=False); tr = IdTransport(cid)
+            c.connection_made(tr); pool._pool[("host%d" % cid, 5683)] = c
             c.data_received(bytes.fromhex("00e1"))
-            conns.append((c, tr, trace))
-        pipes = []
-        def start(conn, label):
-            m = aiocoap.Message(code=aiocoap.GET); m.remote = conn; m.opt.uri_path = ("x",)
-            p = Pipe(m, _log); events = []
-            p.on_event(lambda ev, events=events: (events.append(ev), True)[1])
-            tman.request(p); pipes.append((label, p, events, m))
-        for i in range(inp["requests"]): start(conns[0][0], "a%d" % i)
-        for i in range(inp["other_connection_requests"]): start(conns[1][0], "b%d" % i)
-    loop.drain()
-    with loop.enter():
-        c, tr, trace = conns[0]
-        # answer some of the requests on connection a first
-        for label, p, events, m in pipes[: inp["answered"]]:
-            c.data_received(ref_enc_frame(69, m.token, [], b"ok"))
-        how = inp["how"]
-        if how == "release": c.data_received(bytes.fromhex("00e4"))
-        elif how == "abort": c.data_received(bytes.fromhex("00e5"))
-        elif how == "abort-diagnostic": c.data_received(ref_enc_frame(ABORT, b"", [], b"going away"))
-        elif how == "release-chunked": c.data_received(b"\x00"); c.data_received(b"\xe4")
-        else: c.connection_lost(None)
-    loop.drain()
-    res = {}
-    for label, p, events, m in pipes:
-        kinds = []
-        for ev in events:
+            conns.append((c, tr))
+        del trace[:]
+        ident = {id(c): cid for cid, (c, tr) in enumerate(conns)}
+        def on_event(ev, tok, cid):
             if ev.exception is not None:
-                kinds.append("exception:" + ("NetworkError" if isinstance(ev.exception, error.NetworkError) else "other") + ":" + type(ev.exception).__name__)
-            else: kinds.append("response:%d" % int(ev.message.code))
-        res[label] = kinds
-    res["closed_a"] = conns[0][1].closed; res["closed_b"] = conns[1][1].closed
-    res["still_pooled_a"] = conns[0][0] in pool._pool.values()
-    res["loop_exceptions"] = len(loop.exceptions)
-    return res
+                e = ev.exception
+                if type(e) is error.RemoteServerShutdown and isinstance(e, error.NetworkError):
+                    k = {"Peer released connection": "PeerReleased", "Peer aborted connection": "PeerAborted"}.get(str(e.args[0]) if e.args else "", "?")
+                    kind = ["asis", "shutdown", k]
+                elif type(e) is error.NetworkError and e.args == ("None",) and e.__cause__ is None: kind = ["wrapped", "none"]
+                else: kind = ["other", type(e).__name__, isinstance(e, error.NetworkError)]
+                trace.append(["fail", list(tok), cid, kind])
+            elif ev.message is None: trace.append(["fail", list(tok), cid, ["other", "no exception object", False]])
+            else: trace.append(["resp", list(tok), cid, int(ev.message.code), bool(ev.is_last)])
+            return True
+        for ev in inp["events"]:
+            if ev[0] == "req":
+                _, cid, tok, obs = ev
+                m = aiocoap.Message(code=aiocoap.GET); m.remote = conns[cid][0]; m.opt.uri_path = ("x",)
+                if obs: m.opt.observe = 0
+                p = Pipe(m, _log)
+                p.on_event(lambda e, tok=bytes(tok), cid=cid: on_event(e, tok, cid))
+                tman.request(p)
+                if m.token != bytes(tok): raise AssertionError("token manager issued %r, generator expected %r" % (m.token, bytes(tok)))
+            elif ev[0] == "data":
+                c, tr = conns[ev[1]]
+                if not tr.closed: c.data_received(bytes(ev[2]))
+            else: conns[ev[1]][0].connection_lost(None)
+            loop.drain()
+    final = {"pool": [ident[id(c)] for c in pool._pool.values()],
+             "outgoing": [[list(t), ident[id(r)]] for (t, r) in tman.outgoing_requests.keys()],
+             "closed": [[cid, tr.closed] for cid, (c, tr) in enumerate(conns)]}
+    return {"trace": trace, "final": final, "loop_exceptions": len(loop.exceptions)}
+
+def model_pending(inp):
+    items = []
+    for ev in inp["events"]:
+        if ev[0] == "req": items.append("PRequest %d %s %s" % (ev[1], fw.gbytes(ev[2]), fw.gbool(ev[3])))
+        elif ev[0] == "data": items.append("PData %d %s" % (ev[1], fw.gbytes(ev[2])))
+        else: items.append("PLost %d" % ev[1])
+    return "sys_report (sys_run sys0 %s)" % glist(items)
 
 def oracle_pending(inp, res):
+    """independent statement of clause 9: a request outstanding on a connection that the peer released / aborted / that was lost
+    gets exactly one exception, a NetworkError; answered requests and other connections are not disturbed; nothing stays in the
+    table or the pool for the dead connection"""
     if res.get("loop_exceptions"): return ("C15:pending-loop-exception", "exception reached the event loop")
-    for i in range(inp["requests"]):
-        k = res["a%d" % i]
-        if i < inp["answered"]:
-            if k != ["response:69"]: return ("C15:answered-request-disturbed", "request %d got %r" % (i, k))
-        else:
-            if len(k) != 1 or not k[0].startswith("exception:NetworkError"):
-                return ("C15:pending-request-not-failed", "outstanding request a%d after peer %s: events %r (want exactly one NetworkError)" % (i, inp["how"], k))
-    for i in range(inp["other_connection_requests"]):
-        if res["b%d" % i] != []: return ("C15:unrelated-request-failed", "request on another connection got %r" % (res["b%d" % i],))
-    if inp["how"] != "lost" and not res["closed_a"]: return ("C15:peer-close-not-closed", "transport not closed after peer %s" % inp["how"])
-    if res["closed_b"]: return ("C15:unrelated-connection-closed", "other connection closed")
-    if res["still_pooled_a"]: return ("C15:dead-connection-still-pooled", "connection still in the pool after %s" % inp["how"])
+    ref = {0: RefReceiver(DEFAULT_MAX), 1: RefReceiver(DEFAULT_MAX)}
+    for r in ref.values(): r.csm = True
+    lost = {0: False, 1: False}; reqs = []
+    for ev in inp["events"]:
+        if ev[0] == "req": reqs.append((bytes(ev[2]), ev[1], ev[3]))
+        elif ev[0] == "data": ref[ev[1]].data(bytes(ev[2]))
+        else: lost[ev[1]] = True
+    for tok, cid, obs in reqs:
+        got = [e for e in res["trace"] if e[0] in ("resp", "fail") and bytes(e[1]) == tok and e[2] == cid]
+        # responses the reference receiver hands over for this token, up to the first final one
+        exp = []
+        for x in ref[cid].exp:
+            if x[0] == "resp" and bytes(x[2]) == tok:
+                has_obs = any(n == 6 for n, _ in x[3]); final = not (obs and has_obs)
+                exp.append(["resp", x[1], final])
+                if final: break
+        answered = bool(exp) and exp[-1][2]
+        peer_closed = any(x[0] == "err" for x in ref[cid].exp)
+        dead = peer_closed or lost[cid]
+        want = [["resp", c, f] for _, c, f in exp] + ([["fail"]] if dead and not answered else [])
+        have = [["resp", e[3], e[4]] if e[0] == "resp" else ["fail"] for e in got]
+        fails = [e for e in got if e[0] == "fail"]
+        for f in fails:
+            if f[3][0] == "other": return ("C15:pending-failure-not-network-error", "request %s on connection %d failed with %r" % (tok.hex(), cid, f[3]))
+        if have != want:
+            if answered and have[:len(want)] == want: sig = "C15:answered-request-disturbed"
+            elif dead and not fails: sig = "C15:pending-request-not-failed"
+            elif len(fails) > 1: sig = "C15:pending-request-failed-twice"
+            elif not dead and fails: sig = "C15:unrelated-request-failed"
+            else: sig = "C15:pending-request-events-differ"
+            return (sig, "request %s on connection %d (%s): events %r, expected %r" % (tok.hex(), cid, inp.get("how"), have, want))
+        still = [list(tok), cid] in res["final"]["outgoing"]
+        if (dead or answered) and still: return ("C15:dead-request-still-in-table", "request %s on connection %d still in outgoing_requests" % (tok.hex(), cid))
+        if not dead and not answered and not still: return ("C15:live-request-dropped", "request %s on connection %d vanished from outgoing_requests" % (tok.hex(), cid))
+    for cid in (0, 1):
+        peer_closed = any(x[0] == "err" for x in ref[cid].exp)
+        if (peer_closed or lost[cid]) and cid in res["final"]["pool"]: return ("C15:dead-connection-still-pooled", "connection %d still in the pool" % cid)
+        if not (peer_closed or lost[cid]) and cid not in res["final"]["pool"]: return ("C15:live-connection-evicted", "connection %d evicted from the pool" % cid)
+        if peer_closed and not dict(map(tuple, res["final"]["closed"]))[cid]: return ("C15:peer-close-not-closed", "transport %d not closed after the peer's Release/Abort" % cid)
     return None
 
 PROPERTY = C15()
